@@ -1112,14 +1112,20 @@ def suite_trap(out, tier, seed):
             self.closed = True
     proto.connection_made(T())
 
+    serial = [0]
+
     def trap_bytes(comm, n):
-        vbs = [((1, 3, 6, 1, 2, 1, 1, 3, 0), ("int", ber.TIMETICKS, 4200)), ((1, 3, 6, 1, 6, 3, 1, 1, 4, 1, 0), ("oid", (1, 3, 6, 1, 4, 1, 9, 9)))]
-        vbs += [((1, 3, 6, 1, 4, 1, 9, i), ("int", ber.INT, i)) for i in range(n)]
+        # every notification differs from the one before (uptime, payload values); sizes cross the 127/128 and 255/256
+        # length-form boundaries of the outer structures
+        serial[0] += 1
+        k = serial[0]
+        vbs = [((1, 3, 6, 1, 2, 1, 1, 3, 0), ("int", ber.TIMETICKS, 4200 + k)), ((1, 3, 6, 1, 6, 3, 1, 1, 4, 1, 0), ("oid", (1, 3, 6, 1, 4, 1, 9, k)))]
+        vbs += [((1, 3, 6, 1, 4, 1, 9, i), ("int", ber.INT, 1000 * k + i)) for i in range(n)]
         return ber.build_community_message(1, comm, ber.build_pdu(ber.TRAP2, 77, 0, 0, vbs)), vbs
     seq = []
     for _ in range(30 if tier == "quick" else 600):
         kind = rnd.choice(["valid", "valid", "foreign", "truncated", "garbage"])
-        data, vbs = trap_bytes(b"trapcomm" if kind != "foreign" else b"other", rnd.randint(0, 3))
+        data, vbs = trap_bytes(b"trapcomm" if kind != "foreign" else b"other", rnd.choice([0, 1, 2, 3, 3, 6, 9, 14, 25]))
         if kind == "truncated":
             data = data[:rnd.randint(1, len(data) - 1)]
         if kind == "garbage":
@@ -1150,6 +1156,14 @@ def suite_trap(out, tier, seed):
                [(tuple(v.oid.nodes), describe(v.value)) for v in new[0].value.varbinds] != [(o, describe_node(v)) for o, v in vbs] or \
                TrapInfo(new[0]).origin != addr[0]:
                 out.fail(scen, repr(new), "delivered exactly once with origin %s and the bindings sent" % addr[0])
+                break
+            info = TrapInfo(new[0])
+            want_values = {".".join(map(str, o)): v[2] for o, v in vbs[2:]}
+            import datetime as _dt
+            view = (info.uptime, info.oid, dict(info.values))
+            want = (_dt.timedelta(milliseconds=10 * vbs[0][1][2]), ".".join(map(str, vbs[1][1][1])), want_values)
+            if view != want:
+                out.fail(scen, repr(view), "pythonic view (uptime, oid, values) of THIS notification: %r" % (want,))
                 break
         elif kind == "foreign" and new:
             out.fail(scen, repr(new), "a foreign community is never delivered")
